@@ -55,7 +55,7 @@ def plan(tier, seed):
 
 def mandatory(tier):
     out = [f"matmul/{a}x{b}/{ba}x{bb}/D{D}" for a in FORMS for b in FORMS for ba in BATCH for bb in BATCH for D in (2, 3)]
-    out += [f"order/{o}" for o in ORDERS] + ["euler2d", "euler_angles/ZXZ", "euler_angles/XZX", "quaternion", "angle_axis", "setters/Parameter", "setters/buffer", "setters/requires_grad_toggle", "transform_points", "transform_vectors"]
+    out += [f"order/{o}" for o in ORDERS] + ["euler2d", "euler_angles/ZXZ", "euler_angles/XZX", "quaternion", "angle_axis", "setters/Parameter", "setters/buffer", "setters/requires_grad_toggle", "transform_points", "transform_vectors", "builders", "quaternion_getter/negative_w"]
     return out
 
 
@@ -236,6 +236,46 @@ def case(ctx, i):
         ang = A.euler_rotation_angles(torch.tensor(R))
         back = A.euler_rotation_matrix(ang.reshape(N, 1))
         ctx.close("euler_angles_2d_roundtrip_same_rotation", back, R, 1e-7, key="euler_angles/2d", angles=a.tolist())
+    # ---------------- elementary matrix builders: the homogeneous form is the same map as the square form
+    with ctx.guard("builders", key="exc/builders"):
+        ctx.bucket("builders")
+        for D in (2, 3):
+            for lead in ((), (N,)):
+                x = rng.normal(size=(5, D))
+                sc = np.exp(rng.uniform(-1, 1, size=lead + (D,)))
+                sh = rng.uniform(-1.2, 1.2, size=lead + (D * (D - 1) // 2,))
+                of = rng.normal(size=lead + (D,))
+                iu = np.triu_indices(D, 1)
+
+                def ref_shear(a):
+                    M = np.eye(D)
+                    M[iu] = np.tan(a)
+                    return M
+
+                refs = {
+                    "scaling_transform": (sc, lambda a: np.diag(a), np.zeros(D)),
+                    "shear_matrix": (sh, ref_shear, np.zeros(D)),
+                }
+                for name, (arg, ref_fn, _) in refs.items():
+                    fn = getattr(A, name)
+                    sq = fn(torch.tensor(arg))
+                    ho = fn(torch.tensor(arg), homogeneous=True)
+                    want = np.stack([ref_fn(a) for a in arg.reshape(-1, arg.shape[-1])]).reshape(lead + (D, D))
+                    ctx.close(f"{name}_vs_oracle", sq, want, 1e-12, key=f"builders/{name}", D=D, lead=list(lead))
+                    ctx.true(f"{name}_homogeneous_shape", tuple(ho.shape) == lead + (D, D + 1), key=f"builders/{name}/homogeneous", D=D, got=list(ho.shape))
+                    if tuple(ho.shape) == lead + (D, D + 1):
+                        ctx.close(f"{name}_homogeneous_same_map", ho, np.concatenate([want, np.zeros(lead + (D, 1))], axis=-1), 1e-12, key=f"builders/{name}/homogeneous", D=D, lead=list(lead))
+                        ctx.close(f"{name}_homogeneous_equals_converted", ho, K.as_homogeneous_matrix(sq)[..., :D, :], 1e-12, key=f"builders/{name}/homogeneous", D=D, lead=list(lead))
+                tv = A.translation(torch.tensor(of))
+                th = A.translation(torch.tensor(of), homogeneous=True)
+                ctx.true("translation_shapes", tuple(tv.shape) == lead + (D, 1) and tuple(th.shape) == lead + (D, D + 1), key="builders/translation", got=[list(tv.shape), list(th.shape)])
+                if tuple(th.shape) == lead + (D, D + 1):
+                    want = np.concatenate([np.broadcast_to(np.eye(D), lead + (D, D)), of[..., None]], axis=-1)
+                    ctx.close("translation_homogeneous_same_map", th, want, 1e-12, key="builders/translation", D=D, lead=list(lead))
+                    ctx.close("translation_vector_form", tv[..., 0], of, 0.0, key="builders/translation", D=D)
+                idm = A.identity_transform(lead + (D,), homogeneous=True, dtype=torch.float64)
+                ctx.close("identity_transform_homogeneous", idm, np.concatenate([np.broadcast_to(np.eye(D), lead + (D, D)), np.zeros(lead + (D, 1))], axis=-1), 0.0, key="builders/identity", D=D)
+                ctx.close("identity_transform_square", A.identity_transform(lead + (D,), dtype=torch.float64), np.broadcast_to(np.eye(D), lead + (D, D)), 0.0, key="builders/identity", D=D)
     # ---------------- quaternions / axis-angle
     with ctx.guard("quaternion"):
         ctx.bucket("quaternion")
@@ -327,8 +367,11 @@ def case(ctx, i):
             Rq = np.stack([L.quat(x) for x in q])
             ctx.close("quaternion_setter_matrix", t.tensor().detach(), Rq, tol, key="setters/QuaternionRotation.quaternion_", kind=kind)
             ctx.close("quaternion_getter_unit", t.quaternion().detach().norm(dim=1), np.ones(2), tol, key="setters/QuaternionRotation.quaternion", kind=kind)
+            ctx.close("quaternion_getter_same_rotation", np.stack([L.quat(x) for x in t.quaternion().detach().double().numpy()]), Rq, tol * 5, key="setters/QuaternionRotation.quaternion", kind=kind, w=q[:, 0].tolist())
+            ctx.bucket("quaternion_getter/negative_w" if (q[:, 0] < 0).any() else "quaternion_getter/positive_w")
             t.matrix_(torch.tensor(Rq, dtype=torch.float32))
             ctx.close("quaternion_matrix_setter_same_rotation", t.tensor().detach(), Rq, 1e-4, key="setters/QuaternionRotation.matrix_", kind=kind)
+            ctx.close("quaternion_getter_after_matrix_setter_same_rotation", np.stack([L.quat(x) for x in t.quaternion().detach().double().numpy()]), Rq, 1e-4, key="setters/QuaternionRotation.quaternion", kind=kind)
         with ctx.guard("Scaling", key=f"exc/Scaling/{kind}", kind=kind):
             for cls, shape in ((S.IsotropicScaling, (2, 1)), (S.AnisotropicScaling, (2, 3))):
                 t = cls(g3, groups=2, params=params)
